@@ -35,7 +35,7 @@ CLASS_DEFAULTS = {
     'MethodNotFoundError': (-32601, 'Method not found'), 'InvalidParamsError': (-32602, 'Invalid params'),
     'InternalError': (-32603, 'Internal error'), 'ServerError': (-32000, 'Server error'),
     'Custom2001': (2001, 'custom error 2001'), 'Custom2002': (2002, 'custom error 2002'), 'Custom2003': (2003, 'custom error 2003'),
-    'Custom2004': (2004, 'custom error 2004'), 'Custom2005': (2005, 'custom error 2005'), 'Custom2006Refined': (2006, 'refined error 2006'), 'QuotaError': (2007, 'quota exceeded'), 'SrvRange': (-32050, 'server range error'), 'IndepA': (3001, 'independent error'), 'ZeroCode': (0, 'zero code error'),
+    'Custom2004': (2004, 'custom error 2004'), 'Custom2005': (2005, 'custom error 2005'), 'Custom2006Refined': (2006, 'refined error 2006'), 'QuotaError': (2007, 'quota exceeded'), 'SrvRange': (-32050, 'server range error'), 'IndepA': (3001, 'independent error'), 'ZeroCode': (0, 'zero code error'), 'SharedA': (2101, 'shared registry 2101'),
 }
 
 
